@@ -54,6 +54,11 @@ def gen_vnum_cases(ctx):
         strs.append("v" + "".join(rng.choice("0123456789vx- ") for _ in range(rng.randint(0, 12))))
     for s in strs:
         cases.append({"op": "parse", "s": s})
+    # very wide paddings (fix d5a9e2d): Display pads by hand, no format-width limit
+    for w in (254, 255, 65535, 65536, 70000, 200000):
+        for n in (1, 9, 10, 4294967295):
+            cases.append({"op": "display", "n": n, "w": w})
+        cases.append({"op": "parse", "s": "v" + "0" * (w - 1) + "7"})
     return cases
 
 
@@ -70,7 +75,7 @@ def direct_oracle(c, o):
     U32 = 4294967295
     if c["op"] == "next":
         n, w = c["n"], c["w"]
-        mx = U32 if w == 0 else (10 ** (w - 1) - 1 if w <= 40 else 10 ** 40)
+        mx = U32 if w == 0 else min(U32, 10 ** (w - 1) - 1 if w <= 40 else 10 ** 40)
         if "panic" in o:
             return "VersionNum::next panicked"
         if "ok" in o:
@@ -89,13 +94,15 @@ def direct_oracle(c, o):
     if c["op"] == "parse":
         import re
         s = c["s"]
-        good = re.fullmatch(r"v[0-9]+", s) is not None and 1 <= int(s[1:]) <= U32
+        sig = s[1:].lstrip("0")                       # significant digits (the padding can be very long)
+        val = (int(sig) if sig else 0) if (re.fullmatch(r"v[0-9]+", s) and len(sig) <= 12) else None
+        good = re.fullmatch(r"v[0-9]+", s) is not None and val is not None and 1 <= val <= U32
         if "panic" in o:
             return "parse panicked"
         if good != ("ok" in o):
             return "parse accepted/rejected wrongly"
         if good:
-            if o["ok"]["n"] != int(s[1:]) or o["ok"]["w"] != (len(s) - 1 if s.startswith("v0") else 0):
+            if o["ok"]["n"] != val or o["ok"]["w"] != (len(s) - 1 if s.startswith("v0") else 0):
                 return "parse returned a different number/width"
     return None
 
@@ -131,8 +138,11 @@ def mc_jobs(ctx):
     sess, cli = [], []
     for name, n, ops in mc.scenarios(thorough=not quick):
         sess.append(("scenario/" + name, n, ops))
-        if name != "width-3-maximum":
+        if name != "width-3-maximum" or not quick:
             cli.append(("cli-scenario/" + name, n, ops))
+    for name, n, ops in mc.wide_scenarios():
+        sess.append(("wide/" + name, n, ops))
+        cli.append(("cli-wide/" + name, n, ops))
     # every interleaving of two clients with <= 2 operations each, from five start states
     for start in ("S2", "S5", "S0", "S1", "S4"):
         every = 1 if (start in ("S2", "S5") or not quick) else 4
@@ -178,6 +188,17 @@ def mc_judge(ctx, r, out, known_ids, stats):
     ctx.count((r["kind"], [s["op"] for s in steps], rcs), nontrivial=nontrivial, sample=sample)
     detail = {"backend": "library handles (vh hist, debug build)" if r["kind"] == "sess" else "release CLI, one process per operation",
               "clients": r["nclients"], "key": r["key"], "interleaving": [s["op"] for s in steps], "results": rcs}
+    wide = group in ("wide", "cli-wide")
+    if wide:
+        # very wide paddings: must not panic, must not wedge; the operating system's refusals of
+        # over-long directory names are not part of the model (no Coq comparison from width 255 on)
+        w = steps[0]["op"][3]
+        refused = sorted({s["op"][0] for s in steps[:5] if s["rc"] == "err" and s["op"][0] in ("stage", "commit")})
+        stats["wide"]["%s width %d" % (r["kind"], w)] = ("refused by the file system: " + ",".join(refused)) if refused else "works end to end"
+        tail_bad = [i for i, s in enumerate(steps) if i >= len(steps) - 5 and s["rc"] != "ok"]
+        if tail_bad and not any(s["problems"] for s in steps):
+            steps[tail_bad[0]]["problems"] = ["staging root or object not usable after reset/purge: %s -> %s"
+                                              % (steps[tail_bad[0]]["op"], steps[tail_bad[0]]["rc"])]
     if len(chk) != len(steps):
         common.corr_break(ctx, "Corr.CheckMultiClient.check_run returned %d steps for %d" % (len(chk), len(steps)), detail)
         return
@@ -188,11 +209,9 @@ def mc_judge(ctx, r, out, known_ids, stats):
     for i, s in enumerate(steps):
         if not s["problems"]:
             continue
-        in_lineage = known_from is not None and i >= known_from and "recreated-lineage" in known_ids
-        in_overflow = chk[i][2] and "vnum-overflow" in known_ids
-        if in_lineage or in_overflow:
+        if known_from is not None and i >= known_from and "recreated-lineage" in known_ids:
             if not hit_known:
-                ctx.known_hit("recreated-lineage" if in_lineage else "vnum-overflow")
+                ctx.known_hit("recreated-lineage")
                 hit_known = True
             continue
         if stats["violations"] < 8:
@@ -200,6 +219,8 @@ def mc_judge(ctx, r, out, known_ids, stats):
                                                                                                 "state_after": s["view"]},
                                                  expected=s["problems"], model_check=out))
         stats["violations"] += 1
+        return
+    if wide and steps[0]["op"][3] > 254:
         return
     bad = [i for i, c in enumerate(chk) if c[0] != 0]
     if bad:
@@ -237,7 +258,7 @@ def mc_stage(ctx, vh):
             shutil.rmtree(real, ignore_errors=True)
     outs = common.coq_eval("c14mc", MC_IMPORTS, [r["term"] for r in res], batch=200)
     known_ids = {k["id"] for k in ctx.known}
-    stats = {"groups": {}, "ops": {}, "raced": 0, "known_steps": 0, "violations": 0, "corr": 0}
+    stats = {"groups": {}, "ops": {}, "raced": 0, "known_steps": 0, "violations": 0, "corr": 0, "wide": {}}
     for r, o in zip(res, outs):
         mc_judge(ctx, r, o, known_ids, stats)
     ctx.coverage["multiclient"] = {
@@ -245,6 +266,7 @@ def mc_stage(ctx, vh):
         "operation_results": stats["ops"], "interleavings_with_a_refused_racing_commit": stats["raced"],
         "interleavings_entering_known_class": stats["known_steps"],
         "violating_interleavings": stats["violations"], "model_disagreements": stats["corr"],
+        "very_wide_paddings": stats["wide"],
     }
     return len(res)
 
@@ -264,61 +286,100 @@ def replay(ctx, body):
         if real:
             shutil.rmtree(real, ignore_errors=True)
     outs = common.coq_eval("c14mc", MC_IMPORTS, [r["term"] for r in res])
-    stats = {"groups": {}, "ops": {}, "raced": 0, "known_steps": 0, "violations": 0, "corr": 0}
+    stats = {"groups": {}, "ops": {}, "raced": 0, "known_steps": 0, "violations": 0, "corr": 0, "wide": {}}
     mc_judge(ctx, res[0], outs[0], {k["id"] for k in ctx.known}, stats)
     for i, s in enumerate(res[0]["steps"]):
         common.log("step %d %r -> %s %s" % (i, s["op"], s["rc"], "; ".join(s["problems"])))
     return ctx.finish(rule="replay of one interleaving")
 
 
+def build_harness_release():
+    """the harness once more with the release profile (overflow checks off): the same VersionNum
+    cases must come out the same; common.build_harness() has prepared the crate directory"""
+    env = dict(common.CARGO_ENV, RUSTFLAGS="--cfg rocfl_verif -Awarnings")
+    rc, out = common.run(["cargo", "build", "--offline", "--quiet", "--release", "--target-dir", common.TARGET],
+                         cwd=common.HARNESS, env=env, timeout=3600)
+    if rc != 0:
+        raise common.BuildError("harness release build failed:\n" + out[-4000:])
+    return os.path.join(common.TARGET, "release", "vh")
+
+
+def padded_form(s):
+    """'v000123' -> (3, '123') when the string is v, zeros, digits without leading zero (or a single 0)"""
+    import re
+    m = re.fullmatch(r"v(0*)([1-9][0-9]*|)", s)
+    if not m:
+        return None
+    return len(m.group(1)), m.group(2)
+
+
+def vnum_term(c, o, dbg):
+    d = "true" if dbg else "false"
+    if c["op"] == "next":
+        return "check_next %s %d %d %s" % (d, c["n"], c["w"], obs_res(o))
+    if c["op"] == "prev":
+        return "check_prev %s %d %d %s" % (d, c["n"], c["w"], obs_res(o))
+    if c["op"] == "display":
+        s = o.get("ok", "")
+        pf = padded_form(s) if len(s) > 64 else None
+        if pf:
+            return "check_display_padded %d %d %d %s" % (c["n"], c["w"], pf[0], coq_str(pf[1]))
+        return "check_display %d %d %s" % (c["n"], c["w"], coq_str(s))
+    pf = padded_form(c["s"]) if len(c["s"]) > 64 else None
+    if pf:
+        return "check_parse_padded %d %s %s" % (pf[0], coq_str(pf[1]), obs_res(o))
+    return "check_parse %s %s" % (coq_str(c["s"]), obs_res(o))
+
+
+def run_vnum(exe, cases):
+    inp = "\n".join(json.dumps(c) for c in cases) + "\n"
+    p = subprocess.run([exe, "vnum"], input=inp, capture_output=True, text=True, timeout=600)
+    outs = [json.loads(l) for l in p.stdout.splitlines() if l.strip()]
+    if len(outs) != len(cases):
+        raise common.BuildError("harness vnum produced %d results for %d cases" % (len(outs), len(cases)))
+    return outs
+
+
 def run(ctx):
     proof = common.proof_stage(ctx)
     vh = common.build_harness()
+    vh_rel = build_harness_release()
     ok, log = common.coq_make(["theories/Corr/CheckVnum.vo"])
     if not ok:
         raise common.BuildError("Corr/CheckVnum.v does not build:\n" + log[-3000:])
 
     cases = gen_vnum_cases(ctx)
-    inp = "\n".join(json.dumps(c) for c in cases) + "\n"
-    p = subprocess.run([vh, "vnum"], input=inp, capture_output=True, text=True, timeout=600)
-    outs = [json.loads(l) for l in p.stdout.splitlines() if l.strip()]
-    if len(outs) != len(cases):
-        raise common.BuildError("harness vnum produced %d results for %d cases" % (len(outs), len(cases)))
-
-    terms, known_terms = [], []
-    for c, o in zip(cases, outs):
-        if c["op"] == "next":
-            terms.append("check_next true %d %d %s" % (c["n"], c["w"], obs_res(o)))
-        elif c["op"] == "prev":
-            terms.append("check_prev true %d %d %s" % (c["n"], c["w"], obs_res(o)))
-        elif c["op"] == "display":
-            terms.append("check_display %d %d %s" % (c["n"], c["w"], coq_str(o.get("ok", ""))))
-        else:
-            terms.append("check_parse %s %s" % (coq_str(c["s"]), obs_res(o)))
-    res = common.coq_eval("c14", ["Base.Bytes", "Model.VersionNum", "Corr.CheckVnum"], terms)
-
-    known_ids = {k["id"] for k in ctx.known}
-    stats = {"next": 0, "prev": 0, "display": 0, "parse": 0, "ok": 0, "err": 0, "panic": 0}
-    n_known = 0
-    for c, o, r in zip(cases, outs, res):
-        stats[c["op"]] += 1
-        stats["ok" if "ok" in o else "panic" if "panic" in o else "err"] += 1
-        ctx.count((c, sorted(o.keys())), nontrivial=True, sample={"case": c, "observed": o, "model_agrees": r})
-        msg = direct_oracle(c, o)
-        in_known = c["op"] == "next" and (c["w"] > 10 or c["n"] == 4294967295) and "vnum-overflow" in known_ids
-        if msg and in_known:
-            ctx.known_hit("vnum-overflow")
-            n_known += 1
-            msg = None
-        if msg:
-            ctx.violation("impl-violation", {"input": c, "observed": o, "expected": msg})
-        elif r != "true":
-            # model and implementation disagree although the property holds on this input
-            common.corr_break(ctx, "Corr.CheckVnum case (model VersionNum.v vs types.rs)", {"input": c, "observed": o})
+    stats = {"next": 0, "prev": 0, "display": 0, "parse": 0, "ok": 0, "err": 0, "panic": 0,
+             "former_overflow_class_inputs": 0}
+    nviol = 0
+    for dbg, exe in ((True, vh), (False, vh_rel)):
+        outs = run_vnum(exe, cases)
+        res = common.coq_eval("c14", ["Base.Bytes", "Model.VersionNum", "Corr.CheckVnum"],
+                              [vnum_term(c, o, dbg) for c, o in zip(cases, outs)])
+        build = "debug" if dbg else "release"
+        for c, o, r in zip(cases, outs, res):
+            stats[c["op"]] += 1
+            stats["ok" if "ok" in o else "panic" if "panic" in o else "err"] += 1
+            if c["op"] == "next" and (c["w"] > 10 or c["n"] == 4294967295):
+                stats["former_overflow_class_inputs"] += 1        # must-pass since fix 476b184
+            small = dict(c, s=c["s"][:40] + "...(%d chars)" % len(c["s"])) if len(c.get("s", "")) > 80 else c
+            oshort = {"ok": o["ok"][:40] + "...(%d chars)" % len(o["ok"])} if isinstance(o.get("ok"), str) and len(o["ok"]) > 80 else o
+            ctx.count((build, c, sorted(o.keys())), nontrivial=True,
+                      sample={"build": build, "case": small, "observed": oshort, "model_agrees": r})
+            msg = direct_oracle(c, o)
+            if msg:
+                if nviol < 8:
+                    ctx.violation("impl-violation", {"build": build, "input": small, "observed": oshort, "expected": msg})
+                nviol += 1
+            elif r != "true":
+                # model and implementation disagree although the property holds on this input
+                common.corr_break(ctx, "Corr.CheckVnum case (model VersionNum.v vs types.rs, %s build)" % build,
+                                  {"input": small, "observed": oshort})
     n_mc = mc_stage(ctx, vh)
-    ctx.coverage["traces_validated_against_impl"] = len(cases) + n_mc
+    ctx.coverage["traces_validated_against_impl"] = 2 * len(cases) + n_mc
     ctx.coverage["distribution"] = stats
-    ctx.assumptions.append("VersionNum correspondence uses the debug build of the library (overflow checks on); the release-mode wrap is modelled (vnext false) and compared only through the release CLI runs of the multi-client stage")
+    ctx.assumptions.append("VersionNum correspondence runs every case through a debug build (overflow checks on) and a release build of the harness; the inputs of the former overflow class (widths above 10, number u32::MAX; fix 476b184) and very wide paddings (fix d5a9e2d) are ordinary must-pass inputs")
+    ctx.assumptions.append("padding widths above 254 make the version directory name longer than NAME_MAX: the operating system refuses cp/commit of such an object (observed: nothing changes, reset recovers); this limit is not part of the model, those interleavings are judged by the model-free oracle only")
     ctx.assumptions.append("multi-client model: every operation is atomic (interleavings of whole operations; the clients of the check run one after the other); an object directory is abstracted to (lineage, head, version states) - the lineage token is the model's and the driver's bookkeeping, the code has none")
     return common.finish_with_proof(ctx, proof,
         rule="VersionNum cases: widths 0-12,20,u32::MAX x numbers around every 10^k and u32::MAX plus random; parse strings from a hostile pool plus random; distinct = distinct (input, outcome class). "
